@@ -40,6 +40,7 @@ pub type CelValueMap = HashMap<String, CelValue>;
 pub enum CelValue {
     Int(i64),
     UInt(u64),
+    #[serde(with = "float_serde")]
     Float(f64),
     Bool(bool),
     String(String),
@@ -72,6 +73,50 @@ pub enum CelValue {
     },
     #[serde(skip_serializing, skip_deserializing)]
     Dyn(Arc<dyn CelValueDyn>),
+}
+
+/// Doubles as plain numbers, except that text formats such as JSON have no
+/// spelling for the non-finite ones (serde_json writes `null`, which cannot
+/// be read back): those are written as the strings "inf", "-inf" and "NaN".
+mod float_serde {
+    use serde::{de, Deserialize, Deserializer, Serializer};
+
+    pub fn serialize<S: Serializer>(val: &f64, serializer: S) -> Result<S::Ok, S::Error> {
+        if serializer.is_human_readable() && !val.is_finite() {
+            serializer.serialize_str(if val.is_nan() {
+                "NaN"
+            } else if *val > 0.0 {
+                "inf"
+            } else {
+                "-inf"
+            })
+        } else {
+            serializer.serialize_f64(*val)
+        }
+    }
+
+    pub fn deserialize<'de, D: Deserializer<'de>>(deserializer: D) -> Result<f64, D::Error> {
+        #[derive(Deserialize)]
+        #[serde(untagged)]
+        enum Spelling {
+            Number(f64),
+            Text(String),
+        }
+
+        if !deserializer.is_human_readable() {
+            return f64::deserialize(deserializer);
+        }
+
+        match Spelling::deserialize(deserializer)? {
+            Spelling::Number(val) => Ok(val),
+            Spelling::Text(text) => match text.as_str() {
+                "NaN" => Ok(f64::NAN),
+                "inf" => Ok(f64::INFINITY),
+                "-inf" => Ok(f64::NEG_INFINITY),
+                other => Err(de::Error::custom(format!("invalid double: {}", other))),
+            },
+        }
+    }
 }
 
 impl CelValue {
